@@ -204,6 +204,16 @@ pub fn c16(j: &mut Judge, v: &StepView) {
         }
     }
     for id in bid_ids.iter().filter(|i| book.bids.contains_key(*i)) {
+        // no verdict where the bid's arithmetic left the decidable zone (a cancel recomputes
+        // price x remainder in 96-bit decimals; DESIGN 3.2 / B.7)
+        let zone_ok = book.bids.get(id).map(|b| match (parse(&b.price), b.rem_base()) {
+            (Parsed::Num(p), Some(rb)) => p.mul_u128(rb).representable() && p.mul_u128(b.size).representable() && b.size < crate::model::TWO96 && b.quote < crate::model::TWO96,
+            _ => false,
+        }).unwrap_or(false);
+        if !zone_ok || j.tracker.bids.get(id).map(|t| t.tainted).unwrap_or(false) {
+            j.label("cancel-probe-skipped-outside-decidable-zone");
+            continue;
+        }
         let res = w.query(&serde_json::to_vec(&wire::q_get_bid(id)).unwrap());
         if let Ok(bytes) = res {
             if let Ok(b) = wire::decode_bid(&bytes) {
